@@ -62,6 +62,48 @@ def _task(args):
                 'error': f'{type(e).__name__}: {e}\n{traceback.format_exc()}', 'ev': fw.Ev().dump(), 'wall': 0.0}
 
 
+def _child(conn, args):
+    try:
+        conn.send(_task(args))
+    finally:
+        conn.close()
+
+
+def _died(args, proc):
+    msg = f'worker process ended without a result (exit code {proc.exitcode}): killed, out of memory, or crashed the interpreter'
+    if args[0] == 'replay':
+        return {'replay': args[2], 'ok': True, 'msg': '', 'known': {}, 'error': msg}
+    prop, idx, tier, seed, shard, nshards = args
+    return {'check': load(prop).CHECKS[idx].name, 'shard': shard, 'violation': None, 'error': msg, 'ev': fw.Ev().dump(), 'wall': 0.0}
+
+
+def run_all(alltasks, nproc):
+    """one forked process per task, at most nproc at a time; a process that dies is a harness error for its task, never a hang"""
+    from multiprocessing.connection import wait
+    ctx = mp.get_context('fork')
+    results = [None] * len(alltasks)
+    pending = list(enumerate(alltasks))[::-1]
+    running = {}
+    while pending or running:
+        while pending and len(running) < nproc:
+            i, t = pending.pop()
+            r, w = ctx.Pipe(duplex=False)
+            p = ctx.Process(target=_child, args=(w, t))
+            p.start()
+            w.close()
+            running[r] = (i, p)
+        for r in wait(list(running)):
+            i, p = running.pop(r)
+            try:
+                results[i] = r.recv()
+            except (EOFError, OSError):
+                p.join()
+                results[i] = _died(alltasks[i], p)
+            r.close()
+            p.join()
+    return results
+
+
 def rel(path):
     return os.path.relpath(path, fw.VERIF_DIR)
 
@@ -126,8 +168,7 @@ def main(argv):
     # travel from one task to the next (it can still travel between the cases of one task, which is intended)
     alltasks = replay_tasks + tasks
     nproc = max(1, min(NPROC, len(alltasks)))
-    with mp.get_context('fork').Pool(nproc, maxtasksperchild=1) as pool:
-        allresults = pool.map(_task, alltasks, chunksize=1)
+    allresults = run_all(alltasks, nproc)
     results = allresults[len(replay_tasks):]
     for rr in allresults[: len(replay_tasks)]:
         fn = os.path.basename(rr['replay'])
